@@ -35,7 +35,7 @@ def rand_action(rng, wf=True):
         lambda: A.UpdateTextIn(path(), val()), lambda: A.UpdateTextAfter(path(), val()),
         lambda: A.UpdateAttrib(path(), name(), val()), lambda: A.DeleteAttrib(path(), name()),
         lambda: A.InsertAttrib(path(), name(), val()), lambda: A.RenameAttrib(path(), name(), name()),
-        lambda: A.InsertComment(path(), pos(), val()), lambda: A.InsertNamespace(rng.choice(['p', 'q', 'ns1']), rng.choice(['urn:p', 'http://x.y/z'])),
+        lambda: A.InsertComment(path(), pos(), val()), lambda: A.InsertNamespace(rng.choice(['p', 'q', 'ns1']), rng.choice(['urn:p', 'http://x.y/z', 'tag:example.org,2005:x', 'urn:a,,b', 'urn:a,', ',', 'u,v,w,x'])),
         lambda: A.DeleteNamespace(rng.choice(['p', 'q'])),
     ]
     a = acts[k]()
